@@ -346,7 +346,15 @@ func evalValidate(c Case, dir string) hx.Result {
 			data = append([]byte("# yaml\n"), data...)
 		}
 		path := filepath.Join(dir, "doc"+ext)
-		_ = os.WriteFile(path, data, 0o644)
+		_ = os.RemoveAll(path)
+		switch c.Doc {
+		case "\x00missing":
+			// no such file
+		case "\x00directory":
+			_ = os.MkdirAll(path, 0o755)
+		default:
+			_ = os.WriteFile(path, data, 0o644)
+		}
 		schemaArg := c.Schema
 		if c.Schema == "path" {
 			schemaArg = extSchemaPath
@@ -457,12 +465,22 @@ func main() {
 		}
 		docs = append(docs, string(gen.RenderJSON(gen.Apply(core.Tree, ms[i]))))
 	}
+	// documents that cannot even be loaded (not YAML, not an object, empty): what the library says about
+	// them - under every schema choice, the no-op one included - is what the tool has to report
+	docs = append(docs, `{"cdiVersion": [`, "a: b: c", "\tkey: value", "", "[]", `"just a string"`, "- a\n- b\n", "key: [unclosed", "a: 1\na: 2\n", "\x00", "{}\n---\n{}\n")
 	for _, d := range docs {
 		for _, sc := range []string{"builtin", "none", "path"} {
 			for _, stdin := range []bool{false, true} {
 				for _, enc := range []string{"json", "yaml"} {
 					cases = append(cases, Case{Tool: "validate", Doc: d, Schema: sc, Stdin: stdin, Spelling: enc, Args: []string{"validate-tool"}})
 				}
+			}
+		}
+	}
+	for _, d := range []string{"\x00missing", "\x00directory"} {
+		for _, sc := range []string{"builtin", "none", "path"} {
+			for _, enc := range []string{"json", "yaml"} {
+				cases = append(cases, Case{Tool: "validate", Doc: d, Schema: sc, Spelling: enc, Args: []string{"validate-tool", "document is a " + d[1:] + " path"}})
 			}
 		}
 	}
@@ -507,7 +525,7 @@ func main() {
 		l.Record(res, func() any { return map[string]any{"case": cases[i], "outcome": res.Outcome} })
 	})
 	r.Rule = fmt.Sprintf("cdi tool: every %d-th of the %d populations of two directories x two slots over %v, 6 directory lists (incl. reversed, single, with a missing directory, with a repeated directory in the same and in another spelling), %d subcommand/format combinations (devices [-v -o json|yaml], vendors, classes, specs [-v|vendor], dirs, validate, inject with literal and glob patterns, json/yaml OCI files and outputs) and three --spec-dirs spellings: %d process runs; "+
-		"validate tool: %d documents (a slice of the C17 space) x {builtin, none, path} x {file, stdin} x {json, yaml}: %d runs. Oracle: the library called in-process on the same directories with the same validator: exit status != 0 iff the library reports cache errors / validation fails; printed device, vendor, class, Spec-path, error-path sets and the injected OCI spec equal the library's. "+
+		"validate tool: %d documents (a slice of the C17 space, 11 texts that cannot be loaded at all, a missing file and a directory given as document) x {builtin, none, path} x {file, stdin} x {json, yaml}: %d runs. Oracle: the library called in-process on the same directories with the same validator: exit status != 0 iff the library reports cache errors / validation fails; printed device, vendor, class, Spec-path, error-path sets and the injected OCI spec equal the library's. "+
 		"non-trivial = population with at least one device or error", step, total, kinds, len(subcommands), nCDI, len(docs), len(cases)-nCDI)
 	r.Assumptions = []string{"when the tool exits non-zero because of cache errors it prints only the error report; listings are compared only on zero exit", "the default directories (/etc/cdi, /var/run/cdi) are not used: every run passes --spec-dirs",
 		"`specs <vendor>` is compared as the full listing (the vendor filter is not part of the statement)"}
